@@ -133,15 +133,23 @@ CLAIMED = {
 # additions made after the first build (kept apart so that the long entries above stay untouched)
 EXTRA_NOTES = {
     "C02": " Every configuration is entered from another, fully evaluated configuration of the same instance and the writers run before any read in 2 of 3 cases (stale internal flags); the same fixpoint is checked through kconfgen's command line (spec/KStore.tla GenRun, spec/MC_Gen.tla: --defaults files merged in order, sdkconfig merged on top, both policies, second run rewrites nothing).",
+    "C01": " Families since added: F-multidef, F-forward (entries reversed: use before definition), F-regress, strings that read n / y.",
+    "C05": " Named choice defined in two places since added.",
+    "C07": " Each configuration is entered from another evaluated one; the generator that runs first rotates.",
+    "C08": " Old programs whose stored default looks like an option name / a bool since added; open finding C08-resolution-order (matcher: resolution-order-reverse-property) with an F-regress program.",
+    "C09": " Literals that are no numbers of the target's type, long acyclic chains (open finding C09-deep-chain-recursion) since added; KDeps corrected for choice definitions without prompt.",
+    "C12": " Long-lived Kconfig object in every second history; hex option spelled with / without 0x (SyncDeps compares hex as the header spells it).",
+    "C14": " Requests with load and save together; every session file compared with the specification's (R-SavedWhere).",
+    "C17": " Options with a warning, confirmed through force_change_node, since added.",
     "C10": " Every configuration is entered from another, fully evaluated one; write_min_config runs before any read in 1 of 3 cases.",
     "C03": " Plus seeded walks of 4-8 actions, replacing loads of files the tool itself wrote (default-marked entries) and the observation that no such history rewrites an option's defaults (R-NoInjection).",
-    "C04": " Macro variants since added: NAME = / := literal in front of entries (redefined later), used bare, quoted, embedded and doubled in default values and range bounds.",
-    "C11": " The program also comes in a variant whose conditions still mention the deprecated names without defining them.",
-    "C13": " copyfile(follow_symlinks=False) is honoured by the interposer and modelled in Trace_Save as a second name of the destination file.",
-    "C15": " Rows since added: file names the OS refuses (NUL, lone surrogate, empty), set / reset of a name that is only mentioned in expressions.",
+    "C04": " Macro variants since added: NAME = / := literal in front of entries (redefined later), used bare, quoted, embedded and doubled in default values and range bounds; also split-and, min-parens, two-prompts, odd-text variants, F-lex programs and hand-written fixtures; five open parser-2 findings (white-space splitting of option lines).",
+    "C11": " The program also comes in a variant whose conditions still mention the deprecated names without defining them; block entries with quotes / backslashes / empty right-hand side; invalid bool text through aliases.",
+    "C13": " copyfile(follow_symlinks=False) is honoured by the interposer and modelled in Trace_Save as a second name of the destination file; docs and report formats; regeneration by sub-processes with other hash seeds.",
+    "C15": " Rows since added: file names the OS refuses (NUL, lone surrogate, empty), set / reset of a name that is only mentioned in expressions, lines the decoder refuses (huge integer, deep nesting), markup text into numeric options; a subset also through the real process with default verbosity.",
     "C18": " Include lines (source / rsource / osource / orsource) after entries are now part of the generated files; the included file defines an option.",
-    "C19": " Skeleton since extended to 10 directories (a second directory inside the nested project with its own rename file).",
-    "C20": " Programs now contain options defined twice, inside and outside a target-gated menu (both orders).",
+    "C19": " Skeleton since extended to 11 directories (a second directory inside the nested project, a directory named like a rename file); rename files named on the command line / below --includes (DeprScope Explicit / Includes).",
+    "C20": " Programs now contain options defined twice, choices (named, unnamed, gated), nested menus emptied by the target, promptless options reached through imply / set / set default, a float option and literal.",
 }
 
 REASON_PENDING = "check not built yet in this session (planned in DESIGN.md section 3); not claimed until its TLA+ model and conformance harness exist"
